@@ -215,7 +215,7 @@ class C15(Prop):
                     'python oracle in harness/c15.py using http.client.HTTPResponse as the independent client',
                     'write/close events on channel web are taken as the bytes on the wire (socket layer is C11/C12)']
     assumptions = ['application does not set Content-Length / Transfer-Encoding / Connection itself, sets no cookies; header values contain no CR/LF',
-                   'Response.stream is only set on iterator/file bodies (stream on a str/list body makes next() raise: modelled as Crash, excluded)',
+                   'Response.stream is only set on iterator/file bodies or on empty bodies (stream on a non-empty str/list body makes next() raise: modelled as Crash, excluded)',
                    'handlers that raise, and generator handlers that never yield, are not in the generated space',
                    'status 100 is not generated (http.client skips 100 Continue by design)']
 
